@@ -22,7 +22,8 @@ def gen_case(rng, tier, idx):
         # partial wetting on irrigation days - the adjustments of EsPot that must not let Es overtake it
         prof = dict(PROFILE, soils=["Paddy", "Clay", "SiltClay", "SandyClay"], bunds=0.9, mulch_p=0.7, field_p=1.0, fallow_field_p=0.6,
                     z_bund_choices=[0.02, 0.05, 0.15], off_season_p=0.7, custom_soil_p=0.0, archetypes=["tropical", "temperate", "warm"],
-                    event_kinds=["wet_spell", "storm", "et0_spike"], events_per_year=3.0, irr_methods=[0, 1, 2, 5, 5], n_seasons=[1, 2, 3])
+                    event_kinds=["wet_spell", "storm", "et0_spike"], events_per_year=3.0, irr_methods=[0, 1, 2, 5, 5], n_seasons=[1, 2, 3],
+                    program_param_p=0.5, crop_override_p=0.6)
     case = std_case(rng, prof)
     if idx % 4 == 1 and case["spec"]["irr"]["method"] != 0:
         case["spec"]["irr"]["kwargs"]["WetSurf"] = rng.choice([10, 30, 60])
